@@ -29,6 +29,7 @@ enum Op {
     WrongLen(Comp),    // rejected, data untouched
     OutOfRange(Comp),  // partial with a valid first and an out-of-range second index: rejected
     Mismatch(Comp),    // matrix with a different pattern: rejected, data untouched
+    MismatchMove(Comp), // same shape and column counts, one entry moved to another row of its column: rejected
     UpdateData,        // update_data(P: empty, q: set 2, A: set 1, b: empty)
     UpdateDataBad,     // update_data(P: set 1, q: wrong length, A: set 2, b: set 1) -> Err after P
     Solve,
@@ -40,7 +41,7 @@ fn alphabet() -> Vec<Op> {
     // the old entries can no longer be rescued by iterative refinement
     v.push(Op::Whole(Comp::P, 3));
     for c in [Comp::P, Comp::A] {
-        v.extend([Op::Whole(c, 1), Op::Whole(c, 2), Op::Matrix(c), Op::Partial1(c), Op::Partial2(c), Op::Empty(c), Op::WrongLen(c), Op::OutOfRange(c), Op::Mismatch(c)]);
+        v.extend([Op::Whole(c, 1), Op::Whole(c, 2), Op::Matrix(c), Op::Partial1(c), Op::Partial2(c), Op::Empty(c), Op::WrongLen(c), Op::OutOfRange(c), Op::Mismatch(c), Op::MismatchMove(c)]);
     }
     for c in [Comp::Q, Comp::B] {
         v.extend([Op::Whole(c, 1), Op::Whole(c, 2), Op::Partial1(c), Op::Partial2(c), Op::Empty(c), Op::WrongLen(c), Op::OutOfRange(c)]);
@@ -506,8 +507,47 @@ impl Space for Hist {
                         }
                         d2.to_csc()
                     };
-                    if mat.is_equal_sparsity(src) {
+                    if mat.colptr == src.colptr && mat.rowval == src.rowval && (mat.m, mat.n) == (src.m, src.n) {
                         expect_ok = true; // cannot build a mismatching pattern (empty matrix): becomes a valid update
+                    }
+                    let r = if c == Comp::P { solver.update_P(&mat) } else { solver.update_A(&mat) };
+                    if expect_ok && !self.presolve_active {
+                        if c == Comp::P {
+                            model.p0.nzval = mat.nzval.clone();
+                        } else {
+                            model.a0.nzval = mat.nzval.clone();
+                        }
+                    }
+                    r.map_err(|e| format!("{:?}", e))
+                }
+                Op::MismatchMove(c) => {
+                    expect_ok = false;
+                    let src = if c == Comp::P { &orig.p0 } else { &orig.a0 };
+                    let mut mat = src.clone();
+                    let mut done = false;
+                    'o: for j in 0..mat.n {
+                        let (lo, hi) = (mat.colptr[j], mat.colptr[j + 1]);
+                        let maxrow = if c == Comp::P { j + 1 } else { mat.m };
+                        for k in lo..hi {
+                            for r in 0..maxrow {
+                                if !mat.rowval[lo..hi].contains(&r) {
+                                    mat.rowval[k] = r;
+                                    // keep the column sorted (canonical form)
+                                    let mut pairs: Vec<(usize, f64)> = (lo..hi).map(|t| (mat.rowval[t], mat.nzval[t])).collect();
+                                    pairs.sort_by_key(|p| p.0);
+                                    for (t, (rr, vv)) in pairs.into_iter().enumerate() {
+                                        mat.rowval[lo + t] = rr;
+                                        mat.nzval[lo + t] = vv;
+                                    }
+                                    done = true;
+                                    break 'o;
+                                }
+                            }
+                        }
+                    }
+                    // (own comparison: the crate's sparsity check is part of what is being tested)
+                    if !done || (mat.colptr == src.colptr && mat.rowval == src.rowval) {
+                        expect_ok = true; // no free row in any column: the matrix is the original pattern, a valid update
                     }
                     let r = if c == Comp::P { solver.update_P(&mat) } else { solver.update_A(&mat) };
                     if expect_ok && !self.presolve_active {
